@@ -77,7 +77,7 @@ pub fn spec(id: &str, tier: Tier) -> Option<CheckSpec> {
         "C10" => {
             let mut s = CheckSpec::new("exploration", tier);
             s.jobs = eng_load::jobs_c10(tier);
-            s.rule = "abstract manifests from three families (B: one build statement with every presence pattern 0/1/2 paths of the five optional sections x 7 path rotations over paths needing `$ ` `$:` `$$` escapes and UTF-8; A: every placement of command/description/depfile/pool/deps/rspfile at rule or build level; S: every sequence of <= L statements over a 13-entry menu incl. include (of files that re-bind names of the includer and add new ones)/subninja/default/pool/comments/bindings), each under the canonical spelling and every spelling with <= D deviations at the spacing / continuation / `$v`-vs-`${v}` choice points (all pairs on a shape subset); the loaded graph dump is compared field by field with a reference loader and with the dump of the canonical spelling. Non-trivial = a non-canonical spelling, or any A/S manifest.".into();
+            s.rule = "abstract manifests from three families (B: one build statement with every presence pattern 0/1/2 paths of the five optional sections x 7 path rotations over paths needing `$ ` `$:` `$$` escapes and UTF-8; A: every placement of command/description/depfile/pool/deps/rspfile at rule or build level; S: every sequence of <= L statements over a 14-entry menu incl. include (of files that re-bind names of the includer and add new ones)/subninja/default/pool/comments/bindings), each under the canonical spelling and every spelling with <= D deviations at the spacing / continuation / `$v`-vs-`${v}` choice points (all pairs on a shape subset); the loaded graph dump is compared field by field with a reference loader and with the dump of the canonical spelling. Non-trivial = a non-canonical spelling, or any A/S manifest.".into();
             s.assumptions = vec![
                 "comments only at column 0 between statements; trailing blanks only where Ninja's grammar and n2 both allow them (build/default lines)".into(),
                 "a final newline ends every file (its absence is C12's business)".into(),
@@ -142,7 +142,7 @@ pub fn spec(id: &str, tier: Tier) -> Option<CheckSpec> {
                 "bounds: 3-step graphs over all edge kinds exhaustively, 4-step graphs on reduced edge alphabets, curated 4-6 step shapes".into(),
             ];
             s.must_be_nonzero = vec!["executions_with_concurrency", "executions_with_choice"];
-            s.hang_secs = 40;
+            s.hang_secs = if id == "C04" { 120 } else { 40 };
             s
         }
         "C02" | "C03" | "C08" | "C09" | "C17" => {
